@@ -291,7 +291,8 @@ impl TypeChecker {
                     UnaryOp::Neg => {
                         if matches!(r.ty, ResolvedType::Int | ResolvedType::Float) {
                             let value = match r.value.as_ref() {
-                                Some(ConstValue::Int(n)) => Some(ConstValue::Int(-n)),
+                                // `-i64::MIN` does not fit an int: leave it to the run-time expression.
+                                Some(ConstValue::Int(n)) => n.checked_neg().map(ConstValue::Int),
                                 Some(ConstValue::Float(f)) => Some(ConstValue::Float(-f)),
                                 _ => None,
                             };
